@@ -692,6 +692,33 @@ func closedFlagRaisedWithTheSweep(p *Prog, r *Report) {
 						c, ok := i.(ssa.CallInstruction)
 						return ok && c.Common().StaticCallee() == sweep
 					}, nil)
+					if hit != nil {
+						// the other order is as good: the sweep ran earlier in the same critical section
+						isUnl := func(i ssa.Instruction) bool {
+							c, ok := i.(ssa.CallInstruction)
+							if !ok {
+								return false
+							}
+							if _, isD := i.(*ssa.Defer); isD {
+								return false
+							}
+							key, op, _ := lockOp(c)
+							return op < 0 && strings.HasSuffix(key, "cacheLock")
+						}
+						for _, b2 := range fn.Blocks {
+							for _, i2 := range b2.Instrs {
+								c2, ok := i2.(ssa.CallInstruction)
+								if !ok || c2.Common().StaticCallee() != sweep || !dominatesInstr(i2, st) {
+									continue
+								}
+								toStore, _ := reachAvoiding(fn, i2, func(i ssa.Instruction) bool { return i == ssa.Instruction(st) }, isUnl, nil)
+								viaUnlock, _ := reachAvoiding(fn, i2, isUnl, func(i ssa.Instruction) bool { return i == ssa.Instruction(st) }, nil)
+								if toStore != nil && viaUnlock == nil {
+									hit, path = nil, nil
+								}
+							}
+						}
+					}
 					r.Check("R-atomic", funcName(fn)+": the closed flag is raised in the critical section that empties the cache maps", hit == nil, p.Pos(st.Pos()),
 						"after closed = true the cache lock is released (or the function returns) before collectAllFilesToReleaseNolock ran: a response that gives back the last reader of a still-listed file in that window releases it (closed manager), and the sweep finds the same file in the map and releases it again - the file and its pooled handles are closed twice", blocksString(p, path)...)
 				}
